@@ -37,22 +37,26 @@ func (g *customGen[V]) value(t *T) V {
 	return find(g.maybeValue, t, small)
 }
 
-func (g *customGen[V]) maybeValue(t *T) (V, bool) {
+func (g *customGen[V]) maybeValue(t *T) (v V, ok bool) {
 	parent := t
 	t = newT(t.tb, t.s, flags.debug, nil)
 	t.parent = parent
 	defer func() {
 		if r := recover(); r != nil {
 			// a skip does not undo a non-fatal failure signaled before it, or by a cleanup function
-			if _, ok := r.(invalidData); !ok || t.Failed() {
+			if _, invalid := r.(invalidData); !invalid || t.Failed() {
 				panic(r)
 			}
+
+			// the attempt is rejected, also when it is a cleanup function that ran out of data after g.fn has returned
+			var zero V
+			v, ok = zero, false
 		}
 	}()
 
 	defer t.cleanup() // before the recover above: a failure signaled by a cleanup function is not part of a rejected attempt
 
-	v := g.fn(t)
+	v = g.fn(t)
 	t.failOnError() // a non-fatal failure fails the test case: do not let a later rejection hide it
 
 	return v, true
